@@ -34,7 +34,8 @@ def gen_case(rng, tier, avoid):
         rows = rng.choice([127, 128, 129, 200])                  # frame numbers across the 1/2-byte UVARI boundary
     elif r_b < 0.0515:
         rows = rng.choice([16383, 16384, 16385])                 # ... and the 2/4-byte one
-    fh, chans, recs, _ = gen.frame_block(spec, lfi, rng, rows=rows, n_ch=rng.choice([1, 2, 3]),
+    n_ch = rng.choice([1, 2, 3]) if rng.random() > 0.008 or rows > 200 else rng.choice([127, 128, 130])   # CHANNELS count across 127/128
+    fh, chans, recs, _ = gen.frame_block(spec, lfi, rng, rows=rows, n_ch=n_ch,
                                          max_width=rng.choice([3, 9, 30]) if rows < 1000 else 2, index=False)
     if rows <= 12 and rng.random() < 0.04:
         # a wide channel: DIMENSION / ELEMENT-LIMIT (UVARI values) at 127/128/255/256 and, rarely, 16383/16384/16385
@@ -62,11 +63,26 @@ def gen_case(rng, tier, avoid):
             if rng.random() < 0.15:
                 op['kwargs']['cast_dtype'] = gen.cast_literal(rng, gen.pick(rng, SAFE_CASTS[rc['dtype'][1:]]))
     shared = False
+    twinned = False
     if rng.random() < 0.2:
         # a second frame that shares the first channel
         c2 = spec.channel(lfi, 'EXTRA', gen.array_recipe(rng, rows, width=rng.choice([None, 2])))
         spec.frame(lfi, 'FR2', [chans[0], c2])
         shared = True
+    if rng.random() < 0.12:
+        # another frame with its own channel of the SAME NAME as a channel of the first frame (copy number 1), other dtype and/or
+        # another explicit cast: descriptors and rows of each follow its own channel object
+        first = next(op for op in spec.ops if op.get('op') == 'add' and op['kind'] == 'channel')
+        dt0 = first['kwargs']['data']['$arr']['dtype'][1:]
+        dt2 = rng.choice([d for d in ('f8', 'f4', 'u2', 'i4', 'u1') if d != dt0])
+        ckw = {}
+        if rng.random() < 0.6:
+            ckw['cast_dtype'] = gen.cast_literal(rng, gen.pick(rng, SAFE_CASTS[dt2]))
+        twin = spec.channel(lfi, first['name'], gen.array_recipe(rng, rows, dtype=dt2, width=rng.choice([None, 2])), **ckw)
+        c3 = spec.channel(lfi, 'OTHER', gen.array_recipe(rng, rows, dtype='f4'))
+        spec.frame(lfi, 'FR-TWIN', [twin, c3])
+        shared = True
+        twinned = True
     if rng.random() < 0.15:
         # a channel that belongs to no frame (accepted with a warning outside the high-compatibility mode)
         spec.channel(lfi, 'ORPHAN', gen.array_recipe(rng, rows, width=rng.choice([None, 3])))
@@ -79,7 +95,7 @@ def gen_case(rng, tier, avoid):
         w1['data'] = data
     writes = [w1]
     changed = None
-    if rng.random() < 0.4 and kind in ('inline', 'dict'):
+    if rng.random() < 0.4 and kind in ('inline', 'dict') and not twinned:      # (same-named channels: dataset names are the library's)
         chl = [(op['name'], op['kwargs'].get('dataset_name'), (op['kwargs'].get('data') or {}).get('$arr'))
                for op in ops if op.get('op') == 'add' and op['kind'] == 'channel']
         src = dict((k, rc) for k, rc in (data['arrays'] if data else []))
